@@ -217,6 +217,7 @@ package validator
 //@     invariant [C14] forall j int :: (0 <= j && j < #i && is(v[j], map[string]any)) ==> (let L = old(deref(nodeIndex)[v[j].(map[string]any)["@id"].(string)].(map[string]any)) :: (is(old(L[ELEMENTS]), map[string]any) ==> has(idToLocation, old(L[ELEMENTS].(map[string]any)["@id"].(string)))))
 
 //@ func Index(json any) any
+//@   verify [C02]
 //@   requires-assumed [C14:A-HEAP] is(json, map[string]any) ==> ref(json.(map[string]any)) <= alloc
 //@   requires-assumed [C14:A-HEAP] forall k int :: (0 <= k && k < len(json.(map[string]any)["@graph"].([]any))) ==> (is(json.(map[string]any)["@graph"].([]any)[k], map[string]any) ==> ref(json.(map[string]any)["@graph"].([]any)[k].(map[string]any)) <= alloc)
 //@   ensures [C14:three-indexes] is(result, map[string]any) && is(result.(map[string]any)["@ids"], map[string]any) && is(result.(map[string]any)["@types"], map[string][]string) && is(result.(map[string]any)["@lexical"], map[string]any)
